@@ -203,9 +203,11 @@ def manifests(draw):
 def effective_path(entry):
     path = entry.get('path', '')
     if not path:
+        # "The default for path is the base name of the file"
         path = entry['file_name']
         if path.endswith('.ls'):
             path = path[:-3]
+        path = path.rsplit('/', 1)[-1] or path
     return path
 
 
